@@ -1734,8 +1734,13 @@ class Authenticated(BaseClientHandler):
         # from before the expunge, so it has to go out before the EXPUNGEs.
         #
         await self.send_pending_notifications()
-        expunge_cmd = IMAPClientCommand("A001 EXPUNGE")
-        expunge_cmd.command = IMAPCommand.EXPUNGE
+        # NOTE: The phony command is labelled as a MOVE, not an EXPUNGE: an
+        #       EXPUNGE is let through without waiting for other commands
+        #       when no message is flagged `\Deleted`, but this one removes
+        #       messages regardless of that flag so it must run alone.
+        #
+        expunge_cmd = IMAPClientCommand("A001 MOVE")
+        expunge_cmd.command = IMAPCommand.MOVE
         try:
             idling = self.idling
             self.idling = True
